@@ -140,6 +140,7 @@ class Ctx:
         self.seed = seed
         self.rng = random.Random(seed * 1000003 + int(hashlib.sha256(prop.encode()).hexdigest()[:8], 16))
         self.t0 = time.time()
+        self.t_run = self.t0
         self.tmp = tempfile.mkdtemp(prefix=f'verif_{prop}_')
         self.driver = None
         self.model_available = False
@@ -179,6 +180,11 @@ class Ctx:
         self.known_hits[fid] = what
 
     def elapsed(self):
+        """seconds spent in the property's own run (correspondence / oracle): the clock starts AFTER the Lean phase, so a slow
+        rebuild - which happens exactly when the source changed - never eats the search budget"""
+        return time.time() - self.t_run
+
+    def wall(self):
         return time.time() - self.t0
 
     def budget(self, quick, thorough):
@@ -311,7 +317,7 @@ def write_evidence(ctx, pm, lean, violations_n):
         'level': 'proof',
         'coverage': cov,
         'assumptions': list(getattr(pm, 'ASSUMPTIONS', [])),
-        'wall_s': round(ctx.elapsed(), 2),
+        'wall_s': round(ctx.wall(), 2),
         'violations': violations_n,
     }
     # evidence/ describes runs against /repo itself; a run against another tree (VERIF_REPO: seeded changes, mutants) writes elsewhere
@@ -414,6 +420,7 @@ def main_check(pm, argv):
     ctx = Ctx(prop, tier, seed)
     try:
         lean = lean_phase(ctx, pm)
+        ctx.t_run = time.time()
         ctx.escalate = bool(lean['broken'])
         ensure_repo_on_path()
         findings = load_known_findings(prop)
@@ -459,7 +466,7 @@ def main_check(pm, argv):
         print(f'{prop} {tier}: obligations {lean.get("discharged", 0)}/{len(pm.THEOREMS)} discharged, '
               f'{ctx.evaluations} cases ({len(ctx.nontrivial_keys)} distinct non-trivial), '
               f'{len(ctx.disagreements)} model/impl disagreements, {len(new)} new violations, '
-              f'{len(ctx.known_hits)} known findings, {ctx.elapsed():.1f}s')
+              f'{len(ctx.known_hits)} known findings, {ctx.wall():.1f}s')
         return rc
     finally:
         ctx.cleanup()
